@@ -274,6 +274,11 @@ def check_take_and_clear(ck: Check, rule: str, fi: FuncInfo, attr_path: str, wha
                 if d:
                     aliases.add(d)
 
+    # walrus form: ``if (cb := self._cb) is not None: self._cb = None; cb()``
+    for x in q.walk_local(fi.node):
+        if isinstance(x, ast.NamedExpr) and q.dotted(x.value) == attr_path and isinstance(x.target, ast.Name):
+            aliases.add(x.target.id)
+
     def _clears(n):
         return n.kind == "stmt" and any(q.dotted(t) == attr_path and is_none(v) for t, v in _pairs(n.ast))
 
